@@ -3,6 +3,7 @@
 + safety half (byte-mutated scripts under ASan, outcome class only)."""
 import json, os, shutil, time, threading, concurrent.futures as cf
 from .. import common as C
+from . import c18_comp as CC
 
 HENV = dict(C.ASAN_ENV, ASAN_OPTIONS=C.ASAN_ENV["ASAN_OPTIONS"] + ":soft_rss_limit_mb=1536:max_allocation_size_mb=512")
 GNU = ["prlimit", "--as=2147483648", "sed", "--posix"] if shutil.which("prlimit") else ["sed", "--posix"]
@@ -1200,6 +1201,22 @@ def run(ctx):
                             corr(small, known) or why, small["script"][:160], small["case"]["input"][:80], len(cbad)),
                         case_text(small, corr(small, known) or why), found_input=False)
 
+    # ---- the script compiler: dump of hawk_sed_comp vs the model's parseScript; model from text vs model from structure ----
+    t1 = time.time()
+    ncomp, cstats = CC.run(ctx, C.build_libhawk(ctx), res, mutate, HENV)
+    tv = CC.text_vs_structure(ctx, res, RFILES, FUEL)
+    tbad = [i for i, (l, r) in enumerate(zip(tv, res)) if parse_model(l) != r["model"] and not (l.startswith("comperr") and r["model"]["status"] == "comperr")]
+    cstats["text_vs_structure_cases"] = len(tv)
+    cstats["text_vs_structure_differ"] = len(tbad)
+    if tbad and not any(p["sig"] not in known for p in ctx.problems):
+        r = res[tbad[0]]
+        ctx.problem("corr", "the model executing its own compilation of the script text (HawkModel/SedParse.lean) disagrees with the model executing the "
+                    "structure the text was rendered from: script %r input %r: from text %s | from structure %s (%d cases)" % (
+                        r["script"][:160], r["case"]["input"][:80], tv[tbad[0]][:160], r["model"], len(tbad)),
+                    case_text(r, "model(text) != model(structure)"), found_input=False)
+    ctx.log("compiler half: %d scripts (%d accepted, %d differ), text-vs-structure %d cases (%d differ) in %.1fs" % (
+        cstats["compile_cases"], cstats.get("accepted", 0), cstats.get("differ", 0), len(tv), len(tbad), time.time() - t1))
+
     # ---- safety half ---------------------------------------------------------------------------
     seeds = [r["script"].encode("utf-8") for r in res if not wfiles_of(r["case"])][:4000]
     nmut = 2500 if quick else 50000
@@ -1237,14 +1254,18 @@ def run(ctx):
     nontriv = len({(r["script"], r["case"]["input"], r["case"]["n"]) for r in res if nontrivial(r)})
     samples = [("%r on %r%s" % (r["script"], r["case"]["input"], " -n" if r["case"]["n"] else ""))[:200] for r in res[-3:]] + \
               [("%r on %r" % (res[len(res) // 2]["script"], res[len(res) // 2]["case"]["input"]))[:200]]
-    return C.finish(ctx, [proof], len(res) * 3 + nmut + nmod, nontriv,
+    return C.finish(ctx, [proof], len(res) * 3 + nmut + nmod + ncomp + len(tv), nontriv,
                     "cases = corpus + all ordered pairs over a %d-command alphabet x 2 inputs + all 2- and 3-command sequences over a 7-command `t`-flag alphabet followed by a t probe + seeded random scripts in four weight profiles (default / hold-space traffic around deleting substitutions on unterminated input / `t`-flag probes around s, n, N / long scripts with one dominant command), scripts delivered by -e or -f FILE, input by stdin or file operand (commands s[g N p w] p d D n N g G h H x y a i c q = l b t "
                     "labels blocks ! ; line/regex/$ addresses and ranges; -n) x inputs of 0-6 lines (with/without trailing newline, empty lines, multibyte); every case is run through hawk-sed "
-                    "(ASan build of the working tree), the Lean model and GNU sed --posix; stdout, exit class and w-files compared; + byte-mutated scripts (outcome class only) "
+                    "(ASan build of the working tree), the Lean model and GNU sed --posix; stdout, exit class and w-files compared; + the model run from the script text (its own compiler, "
+                    "fragments joined as std-sed.c joins them) against the model run from the structure; + script-compiler half: corpus + boundary scripts (256-command block, nesting 128/129) + "
+                    "the scripts of all cases + text-level generated scripts (addresses with I and custom delimiters, bracket expressions holding the delimiter, \\x \\X escapes, "
+                    "a/i/c in all forms, r R w W names, labels, blocks, s flags g p i k N w, y with escapes, comments, prefixes cut inside a token; traits -a -x -y) + byte mutants: "
+                    "dump of hawk_sed_comp vs model dump, 3 chunkings of the script stream; + byte-mutated scripts (outcome class only) "
                     "+ sed::str_to_str vs CLI; distinct_nontrivial = distinct (script,input,-n) whose script has a range / s with g or N>1 / hold-space command / n N D / branch and whose output differs from the input" % len(atoms),
                     samples,
                     extra_cov=dict(op_distribution=opdist, features=feat, model_status=mstat, cases=len(res), corpus_cases=ncorpus, exhaustive_cases=nex,
-                                   mutants=nmut, mutant_outcome_classes=mclasses, modsed_cases=nmod,
+                                   mutants=nmut, mutant_outcome_classes=mclasses, modsed_cases=nmod, script_compiler=cstats,
                                    excluded_from_reference_comparison=dict((UNSPEC_TEXT[k], v) for k, v in unspec.items()),
                                    marked_unspecified_but_judged_because_references_agree=dict((k, marked[k] - unspec.get(k, 0)) for k in marked),
                                    intentional_divergences_not_generated=[
@@ -1253,8 +1274,10 @@ def run(ctx):
                                        "carriage returns in the input (hawk-sed treats CR-LF as the line terminator in s/y/regex addresses)",
                                        "regex beyond literals . * ^ $ [list] \\( \\) \\n (intervals, back-references in the pattern, classes): matcher is C06's business",
                                        "lines longer than `l`'s wrap width (70)", "r/R/W/Q/z and the k flag (not in the property)"]),
-                    trusted=["lib/sed.c modelled by hand at command granularity in HawkModel/Sed.lean; the script-text compiler (get_command, pickup_rex, get_text) "
-                             "is not modelled: generated scripts are rendered to text for the real seds and handed to the model as structure",
+                    trusted=["lib/sed.c modelled by hand: the executor at command granularity in HawkModel/Sed.lean, the script compiler (hawk_sed_comp, get_address, pickup_rex, "
+                             "trans_escaped, get_command, get_text, get_label, get_branch_target, get_file, get_subst, get_transet) character by character in HawkModel/SedParse.lean "
+                             "(tied by the dump of the hawk_sed_cmd_t chain, harness/sedc_h.c, and by running the model from the script TEXT); not transcribed: -b extended addresses, "
+                             "the C (cut) command, build_rex (a pattern the regex compiler rejects is compared as the pattern handed to it)",
                              "the regex engine is a parameter of the model; the driver instantiates it with a small leftmost-longest BRE matcher (Drv/Sed.lean) "
                              "for the generator's pattern pool", "GNU sed 4.9 --posix as the POSIX reference"],
                     assumptions=["fuel %d command steps per cycle; cases the model reports as out of fuel are compared as 'diverges' (both real seds killed after %d s)" % (FUEL, T_LOOP)])
@@ -1285,5 +1308,8 @@ def replay(ctx, path):
                     if cl in ("ASAN", "UBSAN") or cl.startswith("SIGNAL"):
                         print("script %r input %r %s -> %s\n%s" % (script, inp, extra, cl, err.decode("utf-8", "replace")[-1500:]))
                         rcode = 1
+        elif l.startswith("COMPILE "):
+            if CC.replay_line(ctx, C.build_libhawk(ctx), l[8:].rstrip("\n"), HENV):
+                rcode = 1
     print("replay:", "FAILS" if rcode else "passes")
     return rcode
